@@ -52,18 +52,18 @@ ASSUMPTIONS = ["node ids are distinct ints; no self-loops; simple undirected gra
                "node attribute values compared are str or int (interned injectively); bond orders are numeric half-integers or missing",
                "MTG variant: within one case the bond order is missing on at most one of the two graphs (its _edge_match rejects a missing order even against a missing order, which the model reproduces; two-sided gaps are not generated)"]
 TESTED_NOT_PROVED = ["prune_automorphisms=True: WHICH mapping represents a host node set is VF2's choice (first in its enumeration order). Since "
-                     "round 4/5 the choice is an INPUT of the model (computed by the harness from networkx alone, validated by apply_choices): "
-                     "single calls and history steps on fresh graph objects compare the full returned lists (C12_prune_auto_choices, "
-                     "C12_history_prune_auto); on graph objects edited in place the choice is not reproducible from the case and only "
-                     "orientation, size, subsets tried and the SET of represented host node sets are compared (run_matcher_auto)",
+                     "round 4/5 the choice is an INPUT of the model (computed by the harness from networkx alone -- on graph objects edited in "
+                     "place by replaying the caller's edits -- and validated by apply_choices): single calls and find_common_subgraph steps of "
+                     "histories compare the full returned lists (C12_prune_auto_choices, C12_history_prune_auto); together with component mode "
+                     "or the its facade only orientation, size, subsets tried and the SET of represented host node sets (run_matcher_auto) or "
+                     "nothing (component mode: outside the model, oracle only)",
                      "mcs_mol: WHICH isomorphism maps a matched component onto its partner is VF2's choice. Since round 5 the combined mapping is an "
-                     "INPUT of the model (from networkx alone), validated against the model's own greedy component pairing with the decision "
-                     "procedure ci_check (C12_ci_check_decides, C12_mcs_mol_choice_valid, C12_history_mcs_mol): single calls and history steps on "
-                     "fresh graph objects (also through the ITS facade, C12_facade_mcs_mol) compare the full mapping; on objects edited in place only "
-                     "the pairing, the size and the number of matcher objects (run_mcs_mol)",
+                     "INPUT of the model (from networkx alone, replayed edits included), validated against the model's own greedy component "
+                     "pairing with the decision procedure ci_check (C12_ci_check_decides, C12_mcs_mol_choice_valid, C12_history_mcs_mol, "
+                     "C12_facade_mcs_mol): the full mapping is compared",
                      "its_decompose (synkit.Graph.ITS, not anchored): the four sides are inputs of the model, computed by the generator independently",
                      "__repr__ / help / __iter__ of the matcher objects: checked by the adapter against the stored result after every step"]
-LEVEL_TEXT = ("Machine-checked proof (Coq, 49 theorems in coq/props/C12.v, all closed under the global context) over an executable model "
+LEVEL_TEXT = ("Machine-checked proof (Coq, 52 theorems in coq/props/C12.v, all closed under the global context) over an executable model "
               "of MCSMatcher._search_subgraphs / _prune_graph / _prepare_orientation / find_common_subgraph / get_mappings (both copies of "
               "the matcher), for all pairs of graphs with distinct node ids: every returned mapping (both modes, all three directions, after "
               "orientation swap and wildcard pruning) is a function, injective, label-preserving, and preserves presence AND order of every "
@@ -82,7 +82,8 @@ LEVEL_TEXT = ("Machine-checked proof (Coq, 49 theorems in coq/props/C12.v, all c
               "history of calls on one object, the latter stated on the caller's raw graphs with the object's options incl. wildcard pruning), C12_reads_inverse, C12_state_unknown, C12_facade_sides, C12_history_component_valid, C12_ctor_normalised, C12_raw_matchers, "
               "C12_raw_meaning; C12_search_trace (per GraphMatcher object: k-subset and number of isomorphisms, compared with the instrumented "
               "implementation on every plain search); C12_history_prune_auto, C12_ci_check_decides / C12_mcs_mol_choice_valid / C12_history_mcs_mol "
-              "(the two VF2-order dependent modes with VF2's choices as validated inputs). Model and code are compared on every run (ordered lists, sizes, subset counts, every read of every history).")
+              "(the two VF2-order dependent modes with VF2's choices as validated inputs); C12_keyword_defaults (wave 4: the calls as the caller wrote "
+              "them, every omitted keyword argument takes its own default, dispatch order of the two bodies). Model and code are compared on every run (ordered lists, sizes, subset counts, every read of every history).")
 LEVEL_NOTE = ("Trusted: Coq kernel + vm_compute; the hand-written model and encoders; networkx VF2 returns, for every k-subset, the same set of "
               "induced sub-graph isomorphisms as the verified enumerator (C12_vf2_premise states that nothing else about VF2 matters; "
               "monitored: ordered result lists compared on every case); in component-wise mode with pruning the node order of networkx's pruned copy "
@@ -171,28 +172,44 @@ def _wc_kw(case):
     return kw
 
 
+def _kw(minimal, defaults, **given):
+    """Keyword arguments of a call; with `minimal` every argument whose value equals the signature default is OMITTED, so each
+    optional argument is also supplied alone / in pairs and every default value of every entry point is exercised (wave 4)."""
+    if not minimal:
+        return given
+    return {k: v for k, v in given.items() if not (k in defaults and type(v) is type(defaults[k]) and v == defaults[k])}
+
+
+_FCS_DEF = {"mcs": False, "mcs_mol": False}
+_RC_DEF = {"side": "op", "mcs": True, "mcs_mol": False, "component": True}
+_RC_DEF_MTG = {"mcs": False, "mcs_mol": False}
+_CTOR_DEF = {"prune_wc": False, "prune_automorphisms": False, "wildcard_element": "*", "element_key": "element"}
+
+
 def _run(case):
     g1, g2 = G.to_nx(case["g1"]), G.to_nx(case["g2"])
     _Count.n, _Count.trace = 0, []
     if case["variant"] == "matcher":
         mod = _patched("synkit.Graph.Matcher.mcs_matcher")
         na, nd, ea = _ctor_args(case)
-        M = mod.MCSMatcher(node_attrs=na, node_defaults=nd, edge_attrs=ea, prune_wc=case.get("prune_wc", False),
-                           prune_automorphisms=case.get("prune_auto", False), **_wc_kw(case))
+        mn = bool(case.get("minimal"))
+        M = mod.MCSMatcher(node_attrs=na, node_defaults=nd, edge_attrs=ea,
+                           **_kw(mn, _CTOR_DEF, prune_wc=case.get("prune_wc", False), prune_automorphisms=case.get("prune_auto", False),
+                                 **_wc_kw(case)))
         mode = case.get("mode")
         if mode == "mcs_mol":
-            M.find_common_subgraph(g1, g2, mcs=case["mcs"], mcs_mol=True)
+            M.find_common_subgraph(g1, g2, **_kw(mn, _FCS_DEF, mcs=case["mcs"], mcs_mol=True))
         elif mode == "component":
-            M.find_rc_mapping(g1, g2, side="its", mcs=case["mcs"], component=True)
+            M.find_rc_mapping(g1, g2, **_kw(mn, _RC_DEF, side="its", mcs=case["mcs"], component=True))
         else:
-            r = M.find_common_subgraph(g1, g2, mcs=case["mcs"])
+            r = M.find_common_subgraph(g1, g2, **_kw(mn, _FCS_DEF, mcs=case["mcs"]))
             assert r is M
         return M, _Count.n
     mod = _patched("synkit.Graph.MTG.mcs_matcher")
     assert len(case["edge_attrs"]) == 1
     na, nd, ea = _ctor_args(case)
     M = mod.MCSMatcher(na, nd, case["edge_attrs"][0]) if ea is not None else mod.MCSMatcher(na, nd)
-    M.find_common_subgraph(g1, g2, mcs=case["mcs"])
+    M.find_common_subgraph(g1, g2, **_kw(bool(case.get("minimal")), _FCS_DEF, mcs=case["mcs"]))
     return M, _Count.n
 
 
@@ -241,8 +258,26 @@ def _nx_matchers(case):
     return nm, em
 
 
+def _replay_objects(hist, k):
+    """The two networkx graph OBJECTS step k of a history is called with, rebuilt by replaying the caller's side of the history
+    exactly as _run_history does (fresh graphs, or earlier objects edited in place by _morph) -- without any matcher call.  VF2's
+    enumeration order follows the insertion order of nodes AND adjacency entries of the live object; replaying the same sequence
+    of insertions / deletions reproduces it."""
+    objs = {}
+    for j, st in enumerate(hist["steps"][:k + 1]):
+        if st.get("call") in _NON_SEARCH or st.get("call") == "rc_side":
+            continue
+        for side in ("g1", "g2"):
+            src = st.get("src_" + side)
+            objs[(j, side)] = _morph(objs[tuple(src)], st[side]) if src is not None else G.to_nx(st[side])
+    return objs[(k, "g1")], objs[(k, "g2")]
+
+
 def _nx_graphs(case):
-    g1, g2 = G.to_nx(case["g1"]), G.to_nx(case["g2"])
+    if case.get("replay") is not None:
+        g1, g2 = _replay_objects(*case["replay"])
+    else:
+        g1, g2 = G.to_nx(case["g1"]), G.to_nx(case["g2"])
     if case.get("prune_wc"):
         g1 = g1.subgraph([n for n, d in g1.nodes(data=True) if d.get(_ek(case)) != _wc(case)]).copy()
         g2 = g2.subgraph([n for n, d in g2.nodes(data=True) if d.get(_ek(case)) != _wc(case)]).copy()
@@ -402,13 +437,12 @@ def _sub(case, st):
         if k in cfg:
             d[k] = cfg[k]
     d["in_history"] = True
-    # round 5: a prune_automorphisms search on FRESH graph objects is tracked by the state machine (MFindAuto: VF2's first mapping
-    # per host node set is computed from networkx alone on graphs built like the adapter's; for objects edited in place the
-    # adjacency order, and with it VF2's enumeration order, is not reproducible from the case -- such steps stay external)
-    d["auto_tracked"] = bool(d["prune_auto"] and case["variant"] == "matcher" and st.get("call", "fcs") == "fcs"
-                             and st.get("src_g1") is None and st.get("src_g2") is None)
-    d["mol_tracked"] = bool(st.get("src_g1") is None and st.get("src_g2") is None
-                            and (st.get("call") == "mcs_mol" or (st.get("call") == "rc_side" and st.get("mol"))))
+    d["minimal"] = bool(st.get("minimal"))
+    # round 5: a prune_automorphisms search is tracked by the state machine (MFindAuto: VF2's first mapping per host node set is
+    # computed from networkx alone on graphs built like the adapter's -- for objects edited in place by REPLAYING the caller's
+    # edits, see _replay_objects -- and validated by the model)
+    d["auto_tracked"] = bool(d["prune_auto"] and case["variant"] == "matcher" and st.get("call", "fcs") in ("fcs", "rc_its"))
+    d["mol_tracked"] = bool(st.get("call") == "mcs_mol" or (st.get("call") == "rc_side" and st.get("mol")))
     if st.get("call") in ("mcs_mol", "component"):
         d["mode"] = st["call"]
     if st.get("call") == "rc_side" and st.get("component"):
@@ -425,8 +459,9 @@ def _new_matcher(sub):
         if sub.get("positional"):
             return mod.MCSMatcher(na, nd, True, edge_attrs=ea, prune_wc=sub.get("prune_wc", False),
                                   prune_automorphisms=sub.get("prune_auto", False), **_wc_kw(sub))
-        return mod.MCSMatcher(node_attrs=na, node_defaults=nd, edge_attrs=ea, prune_wc=sub.get("prune_wc", False),
-                              prune_automorphisms=sub.get("prune_auto", False), **_wc_kw(sub))
+        return mod.MCSMatcher(node_attrs=na, node_defaults=nd, edge_attrs=ea,
+                              **_kw(bool(sub.get("minimal")), _CTOR_DEF, prune_wc=sub.get("prune_wc", False),
+                                    prune_automorphisms=sub.get("prune_auto", False), **_wc_kw(sub)))
     mod = _patched("synkit.Graph.MTG.mcs_matcher")
     return mod.MCSMatcher(na, nd, sub["edge_attrs"][0]) if ea is not None else mod.MCSMatcher(na, nd)
 
@@ -513,7 +548,8 @@ def _run_history(case):
             # the facade with an unknown side: ValueError, raised after the cache was reset
             its1, its2 = G.to_nx(st["its1"]), G.to_nx(st["its2"])
             try:
-                M.find_rc_mapping(its1, its2, side=st["side"], mcs=st["mcs"], component=st.get("component", True))
+                M.find_rc_mapping(its1, its2, **_kw(bool(st.get("minimal")), _RC_DEF, side=st["side"], mcs=st["mcs"],
+                                                    component=st.get("component", True)))
                 out.append((["no-error"] + _state_views(M), True, None))
             except ValueError:
                 out.append(([-1] + _state_views(M), True, None))
@@ -522,16 +558,17 @@ def _run_history(case):
             # the ITS facade: find_rc_mapping(its1, its2, side=r|l|op); st["g1"], st["g2"] are the sides it must compare
             its1, its2 = G.to_nx(st["its1"]), G.to_nx(st["its2"])
             _Count.n, _Count.trace = 0, []
+            mn = bool(st.get("minimal"))
             if variant == "mtg":
-                r = M.find_rc_mapping(its1, its2, mcs=st["mcs"])        # MTG copy: always right side of rc1 vs left side of rc2
+                r = M.find_rc_mapping(its1, its2, **_kw(mn, _RC_DEF_MTG, mcs=st["mcs"]))   # MTG copy: always right side of rc1 vs left side of rc2
                 assert r is None
             elif st.get("mol"):
-                r = M.find_rc_mapping(its1, its2, side=st["side"], mcs=st["mcs"], mcs_mol=True, component=False)
+                r = M.find_rc_mapping(its1, its2, **_kw(mn, _RC_DEF, side=st["side"], mcs=st["mcs"], mcs_mol=True, component=False))
             elif st.get("positional"):
-                r = M.find_rc_mapping(its1, its2, side=st["side"], mcs=st["mcs"], component=st.get("component", False))
+                r = M.find_rc_mapping(its1, its2, **_kw(mn, _RC_DEF, side=st["side"], mcs=st["mcs"], component=st.get("component", False)))
             else:
-                r = M.find_rc_mapping(rc1=its1, rc2=its2, mcs=st["mcs"], component=st.get("component", False), side=st["side"].upper()
-                                      if st.get("upper") else st["side"])
+                r = M.find_rc_mapping(rc1=its1, rc2=its2, **_kw(mn, _RC_DEF, mcs=st["mcs"], component=st.get("component", False),
+                                                                side=st["side"].upper() if st.get("upper") else st["side"]))
             assert r is M or variant == "mtg"
             cnt = _Count.n
             views = _views(M, variant)
@@ -548,18 +585,19 @@ def _run_history(case):
             gs.append(X)
         _Count.n, _Count.trace = 0, []
         call = st.get("call", "fcs")
+        mn = bool(st.get("minimal"))
         if variant == "mtg":
-            M.find_common_subgraph(gs[0], gs[1], mcs=st["mcs"])
+            M.find_common_subgraph(gs[0], gs[1], **_kw(mn, _FCS_DEF, mcs=st["mcs"]))
         elif call == "fcs":
-            r = M.find_common_subgraph(gs[0], gs[1], mcs=st["mcs"])
+            r = M.find_common_subgraph(gs[0], gs[1], **_kw(mn, _FCS_DEF, mcs=st["mcs"]))
             assert r is M
         elif call == "rc_its":
-            r = M.find_rc_mapping(gs[0], gs[1], side=st.get("side", "its"), mcs=st["mcs"], component=False)
+            r = M.find_rc_mapping(gs[0], gs[1], **_kw(mn, _RC_DEF, side=st.get("side", "its"), mcs=st["mcs"], component=False))
             assert r is M
         elif call == "component":
-            M.find_rc_mapping(gs[0], gs[1], side="its", mcs=st["mcs"], component=True)
+            M.find_rc_mapping(gs[0], gs[1], **_kw(mn, _RC_DEF, side="its", mcs=st["mcs"], component=True))
         elif call == "mcs_mol":
-            M.find_common_subgraph(gs[0], gs[1], mcs=st["mcs"], mcs_mol=True)
+            M.find_common_subgraph(gs[0], gs[1], **_kw(mn, _FCS_DEF, mcs=st["mcs"], mcs_mol=True))
         else:
             raise AssertionError(call)
         cnt = _Count.n
@@ -753,6 +791,30 @@ _SIDE_CODE = {"r": "SR", "l": "SL", "op": "SOp", "its": "SIts"}
 _EMPTY_G = {"nodes": [], "edges": []}
 
 
+def _opt(val, default, minimal, conv):
+    """An argument as the caller wrote it: None when it was omitted (minimal call and value = signature default)."""
+    if minimal and type(val) is type(default) and val == default:
+        return "None"
+    return "(Some %s)" % conv(val)
+
+
+def _fcs_kw(st, mol):
+    mn = bool(st.get("minimal"))
+    return "{| fk_mcs := %s; fk_mol := %s |}" % (_opt(bool(st["mcs"]), False, mn, cbool), "(Some true)" if mol else "None")
+
+
+def _rc_kw(st, side_code, side_is_default, comp, mol):
+    mn = bool(st.get("minimal"))
+    return "{| rk_side := %s; rk_mcs := %s; rk_mol := %s; rk_component := %s |}" % (
+        "None" if (mn and side_is_default) else "(Some %s)" % side_code, _opt(bool(st["mcs"]), True, mn, cbool),
+        "(Some true)" if mol else "None", _opt(bool(comp), True, mn, cbool))
+
+
+def _rc_rec(x):
+    return "{| rc_1 := %s; rc_2 := %s; rc_l1 := %s; rc_r1 := %s; rc_l2 := %s; rc_r2 := %s |}" % (
+        x["rc_1"], x["rc_2"], x["rc_l1"], x["rc_r1"], x["rc_l2"], x["rc_r2"])
+
+
 def _coq_history(case):
     """Matcher copy: the history as calls on matcher OBJECTS of the state-machine model (constructor normalisation, attribute
     selection on the raw dictionaries, cache, facade).  Steps in a VF2-order dependent mode (prune_automorphisms, mcs_mol) are
@@ -766,7 +828,7 @@ def _coq_history(case):
         args = clist([_ctor_term(_passed_args(cfg), T) for cfg in configs])
         ops = []
         opaque = set()          # matcher objects whose cache the model does not track at the moment
-        for st in case["steps"]:
+        for k_step, st in enumerate(case["steps"]):
             ci = st.get("cfg", 0)
             cfg = configs[ci]
             if st.get("fresh"):
@@ -779,24 +841,29 @@ def _coq_history(case):
                 ops.append("HCall %d (MReads %s)" % (ci, clist([_DIR_CODE.get(d, "DBad") for d in st["reads"]])))
                 continue
             sub = _sub(case, st)
+            if st.get("src_g1") is not None or st.get("src_g2") is not None:
+                sub["replay"] = (case, k_step)      # VF2's choices are computed on the replayed (edited-in-place) objects
             if call == "bad_side":
                 e = G.coq_lgraph(_EMPTY_G, None, None)
-                ops.append("HCall %d (MRc {| rc_1 := %s; rc_2 := %s; rc_l1 := %s; rc_r1 := %s; rc_l2 := %s; rc_r2 := %s |} SBad %s %s)"
-                           % (ci, e, e, e, e, e, e, cbool(st["mcs"]), cbool(st.get("component", True))))
+                x = dict(rc_1=e, rc_2=e, rc_l1=e, rc_r1=e, rc_l2=e, rc_r2=e)
+                ops.append("HCallKw %d (CRc %s %s [])" % (ci, _rc_rec(x), _rc_kw(st, "SBad", False, st.get("component", True), False)))
                 opaque.discard(ci)
                 continue
             if sub.get("auto_tracked") and _in_domain(dict(sub, prune_auto=False)):
                 ch = clist([clist([cpair(cN(p), cN(h)) for p, h in m]) for m in _vf2_first_per_host_set(sub)])
-                ops.append("HCall %d (MFindAuto %s %s %s %s)" % (ci, _coq_rgraph(_nx_prune_order(st["g1"], sub), T, needed),
-                                                                _coq_rgraph(_nx_prune_order(st["g2"], sub), T, needed), cbool(st["mcs"]), ch))
+                ga, gb = _coq_rgraph(_nx_prune_order(st["g1"], sub), T, needed), _coq_rgraph(_nx_prune_order(st["g2"], sub), T, needed)
+                if call == "fcs":       # the call as written; the model resolves defaults and (prune_automorphisms object) the mode
+                    ops.append("HCallKw %d (CFind %s %s %s %s [])" % (ci, ga, gb, _fcs_kw(st, False), ch))
+                else:
+                    ops.append("HCall %d (MFindAuto %s %s %s %s)" % (ci, ga, gb, cbool(st["mcs"]), ch))
                 opaque.discard(ci)
                 continue
             rc_mol = bool(call == "rc_side" and st.get("mol") and sub.get("mol_tracked") and _in_domain(dict(sub, prune_auto=False)))
             if (sub.get("mode") == "mcs_mol" and sub.get("mol_tracked") and call == "mcs_mol"
                     and _in_domain(dict(sub, prune_auto=False))):        # (mcs_mol does not look at prune_automorphisms)
                 ch = clist([cpair(cN(a), cN(b)) for a, b in _vf2_mol_choice(sub)])
-                ops.append("HCall %d (MFindMol %s %s %s)" % (ci, _coq_rgraph(_nx_prune_order(st["g1"], sub), T, needed),
-                                                            _coq_rgraph(_nx_prune_order(st["g2"], sub), T, needed), ch))
+                ops.append("HCallKw %d (CFind %s %s %s [] %s)" % (ci, _coq_rgraph(_nx_prune_order(st["g1"], sub), T, needed),
+                                                                 _coq_rgraph(_nx_prune_order(st["g2"], sub), T, needed), _fcs_kw(st, True), ch))
                 opaque.discard(ci)
                 continue
             if (cfg.get("prune_auto") or sub.get("mode") == "mcs_mol") and not rc_mol:
@@ -810,7 +877,7 @@ def _coq_history(case):
             g1 = _coq_rgraph(_nx_prune_order(st["g1"], sub), T, needed)
             g2 = _coq_rgraph(_nx_prune_order(st["g2"], sub), T, needed)
             if call == "fcs":
-                ops.append("HCall %d (MFind %s %s %s)" % (ci, g1, g2, cbool(st["mcs"])))
+                ops.append("HCallKw %d (CFind %s %s %s [] [])" % (ci, g1, g2, _fcs_kw(st, False)))
                 continue
             e = G.coq_lgraph(_EMPTY_G, None, None)
             if call in ("rc_its", "component"):
@@ -826,8 +893,7 @@ def _coq_history(case):
                 a_, b_ = {"SR": ("rc_r1", "rc_r2"), "SL": ("rc_l1", "rc_l2"), "SOp": ("rc_r1", "rc_l2")}[sd]
                 x[a_], x[b_] = g1, g2
                 ch = clist([cpair(cN(a), cN(b)) for a, b in _vf2_mol_choice(sub)])
-                ops.append("HCall %d (MRcMol {| rc_1 := %s; rc_2 := %s; rc_l1 := %s; rc_r1 := %s; rc_l2 := %s; rc_r2 := %s |} %s %s)"
-                           % (ci, x["rc_1"], x["rc_2"], x["rc_l1"], x["rc_r1"], x["rc_l2"], x["rc_r2"], sd, ch))
+                ops.append("HCallKw %d (CRc %s %s %s)" % (ci, _rc_rec(x), _rc_kw(st, sd, st["side"] == "op" and not st.get("upper"), False, True), ch))
                 continue
             elif call == "rc_side":
                 sd, comp = _SIDE_CODE[st["side"]], bool(st.get("component", False))
@@ -839,8 +905,7 @@ def _coq_history(case):
                 x[a_], x[b_] = g1, g2
             else:
                 return None
-            ops.append("HCall %d (MRc {| rc_1 := %s; rc_2 := %s; rc_l1 := %s; rc_r1 := %s; rc_l2 := %s; rc_r2 := %s |} %s %s %s)"
-                       % (ci, x["rc_1"], x["rc_2"], x["rc_l1"], x["rc_r1"], x["rc_l2"], x["rc_r2"], sd, cbool(st["mcs"]), cbool(comp)))
+            ops.append("HCallKw %d (CRc %s %s [])" % (ci, _rc_rec(x), _rc_kw(st, sd, call == "rc_side" and st["side"] == "op" and not st.get("upper"), comp, False)))
     except _Outside:
         return None
     return "run_history %s %s" % (args, clist(ops))
@@ -2045,4 +2110,37 @@ def gen_cases(tier, rng):
     cases += _state_histories(rng, 200 if tier == "quick" else 1500)
     cases += _ctor_cases(rng, 60 if tier == "quick" else 300)
     cases += _state_histories_mtg(rng, 80 if tier == "quick" else 600)
+    # wave 4: every optional argument alone / in pairs -- in 40 % of the calls the arguments whose value equals the signature default
+    # are OMITTED (mcs, mcs_mol, side, component of the search entry points; prune_wc, prune_automorphisms, wildcard_element,
+    # element_key of the constructor), so every default value is exercised; own RNG, the cases themselves are unchanged
+    import random as _random
+    rng2 = _random.Random(rng.getrandbits(32))
+    for c in cases:
+        if "steps" in c:
+            for st in c["steps"]:
+                if rng2.random() < 0.4:
+                    st["minimal"] = True
+        elif "ctor" not in c and rng2.random() < 0.4:
+            c["minimal"] = True
+    # ... plus facade calls that rely on ALL defaults: find_rc_mapping(rc1, rc2) = side "op", maximum mode, component-wise
+    for t in range(40 if tier == "quick" else 300):
+        its1, l1, r1 = _its_pair(rng2)
+        its2, l2, r2 = _its_pair(rng2)
+        two = rng2.random() < 0.4
+        cfg = dict(node_attrs=["element", "charge"] if two else ["element"], node_defaults=["*", 0] if two else ["*"],
+                   edge_attrs=["order"], implicit=True)
+        variant = "matcher" if rng2.random() < 0.8 else "mtg"
+        steps = []
+        for k in range(rng2.randint(1, 3)):
+            z = rng2.random()
+            side, mcs_, comp = ("op", True, True) if z < 0.5 or variant == "mtg" else (rng2.choice(["r", "l", "op"]), rng2.random() < 0.5, rng2.random() < 0.5)
+            if variant == "mtg":
+                mcs_, comp = rng2.random() < 0.5, False
+            g1, g2 = {"r": (r1, r2), "l": (l1, l2), "op": (r1, l2)}[side]
+            steps.append(dict(g1=g1, g2=g2, its1=its1, its2=its2, side=side, mcs=mcs_, call="rc_side", component=comp, positional=True,
+                              mol=False, upper=False, minimal=True, sides=dict(l1=l1, r1=r1, l2=l2, r2=r2), reads=["G1_to_G2", "G2_to_G1"]))
+            if rng2.random() < 0.5:
+                a, b = _small_pair(rng2)
+                steps.append(dict(g1=a, g2=b, mcs=False, call="fcs", minimal=True, reads=["G1_to_G2"]))
+        cases.append(_hist_case("history/all-defaults", variant, [cfg], steps))
     return cases
